@@ -9,7 +9,7 @@
   * lib/query/reference_scope.go  DeclareCursor … CursorCount (undeclared → UndeclaredCursorError)
 
   Go `int` is 64 bit on the platforms csvq is built for: every `+` / `-` of the Go code is `wrap64 (… ± …)`
-  here, so overflow behaves as in the code.  The row type `α` is a parameter: the cursor never looks
+  here, so overflow behaves as in the code (FETCH RELATIVE guards its addition and saturates).  The row type `α` is a parameter: the cursor never looks
   into a row.  The result of evaluating the cursor's query at OPEN time is an argument of the `open`
   operation (the view is a value of the model; DML statements are the operation `dml`, which does not
   mention any cursor).
@@ -59,7 +59,11 @@ def recordLen {α} (rows : List α) : Int := (rows.length : Int)
 def moveIndex (p : Pos) (index len : Int) : Int :=
   match p with
   | .absolute n => n
-  | .relative n => wrap64 (index + n)
+  | .relative n =>
+    -- saturating since /repo 63b833c (was: wrap64 (index + n))
+    if 0 < n ∧ wrap64 (9223372036854775807 - n) < index then 9223372036854775807
+    else if n < 0 ∧ index < wrap64 (-9223372036854775808 - n) then -9223372036854775808
+    else wrap64 (index + n)
   | .first => 0
   | .last => wrap64 (len - 1)
   | .prior => wrap64 (index - 1)
